@@ -83,9 +83,15 @@ func (p *c11Pipe) put(b []byte) {
 type c11Writer struct {
 	p      *c11Pipe
 	budget int
+	calls  int
+	second func() // called when Flush makes its second Write (the body), before any byte of it is accepted
 }
 
 func (w *c11Writer) Write(b []byte) (int, error) {
+	w.calls++
+	if w.calls == 2 && w.second != nil {
+		w.second()
+	}
 	if w.budget >= len(b) {
 		w.budget -= len(b)
 		w.p.put(b)
@@ -150,12 +156,51 @@ type c11Session struct {
 	nev   int
 	last  string // error class of the last call
 	conn  map[string]*Conn
-	acc   map[string][]byte // bytes handed out by Conn.Read since its readBuf was last filled
+	acc   map[string][]byte // bytes handed out by Conn.Read since it last took bytes off the wire
+	// what the caller of ReadMessage / ReadBody still holds: the very slices it was handed
+	held map[string][][]byte
+	hh   []string // their hashes, recomputed by Recheck
+	// calls stopped in the middle (the goroutine of the half is parked): WriteMessage after it has staged
+	// the length, Flush between its two Writes; and the length ReadHeader returned to a caller that has
+	// not called ReadBody yet
+	wp, fp  map[string]*c11Parked
+	rplen   map[string]int
+	viaConn bool // ReadMessage through Conn.ReadNextMessage
+}
+
+// c11Parked is a call of one half of a Machine stopped at a scheduling point.
+type c11Parked struct {
+	resume, done chan struct{}
+	n            int
+	err          error
 }
 
 func c11New(t *testing.T, rng *rand.Rand, out *verifkit.Writer) *c11Session {
 	return &c11Session{t: t, rng: rng, out: out, m: map[string]*Machine{},
-		pipe: map[string]*c11Pipe{"ab": {}, "ba": {}}, conn: map[string]*Conn{}, acc: map[string][]byte{}, hs: []string{}}
+		pipe: map[string]*c11Pipe{"ab": {}, "ba": {}}, conn: map[string]*Conn{}, acc: map[string][]byte{}, hs: []string{},
+		held: map[string][][]byte{}, hh: []string{}, wp: map[string]*c11Parked{}, fp: map[string]*c11Parked{},
+		rplen: map[string]int{}}
+}
+
+// cn is the brontide.Conn around machine m (reads from the pipe towards m, writes to the pipe from m).
+func (s *c11Session) cn(m string) *Conn {
+	if c := s.conn[m]; c != nil && c.noise == s.m[m] {
+		return c
+	}
+	d := c11Dir(m)
+	s.conn[m] = &Conn{conn: &c11Net{rd: s.pipe[c11Other(d)], wr: s.pipe[d]}, noise: s.m[m]}
+	return s.conn[m]
+}
+
+// finish lets every parked call run to its end (nothing is recorded any more).
+func (s *c11Session) finish() {
+	for _, mp := range []map[string]*c11Parked{s.wp, s.fp} {
+		for k, ps := range mp {
+			close(ps.resume)
+			<-ps.done
+			delete(mp, k)
+		}
+	}
 }
 
 func btoi(b bool) int {
@@ -200,17 +245,14 @@ func (s *c11Session) key() *btcec.PrivateKey {
 func (s *c11Session) emit(ev c11Event, err string, nn int, h string) {
 	rec := verifkit.Rec{"a": ev.A, "m": ev.M, "d": ev.D, "kind": ev.Kind, "size": ev.Size, "v": ev.V,
 		"k": ev.K, "o1": ev.O1, "o2": ev.O2, "o3": ev.O3, "h": h, "err": err, "nn": nn,
-		"Lab": len(s.pipe["ab"].buf), "Lba": len(s.pipe["ba"].buf), "hs": s.hs, "Arb": 0, "Brb": 0, "cuts": ev.Cuts, "rpk": 0}
+		"Lab": len(s.pipe["ab"].buf), "Lba": len(s.pipe["ba"].buf), "hs": s.hs, "hh": s.hh, "cuts": ev.Cuts, "rpk": 0}
 	if ev.Cuts == nil {
 		rec["cuts"] = []int{}
 	}
 	if b := s.m["B"]; b != nil && b.remoteStatic != nil && s.aPub != nil && b.remoteStatic.IsEqual(s.aPub) {
 		rec["rpk"] = 1
 	}
-	s.hs = []string{}
-	for n, c := range s.conn {
-		rec[n+"rb"] = c.readBuf.Len()
-	}
+	s.hs, s.hh = []string{}, []string{}
 	for _, n := range []string{"A", "B"} {
 		m := s.m[n]
 		if m == nil {
@@ -335,14 +377,138 @@ func (s *c11Session) apply(ev c11Event) {
 	case "Read":
 		p := s.pipe[ev.D]
 		p.cur = p.cur[:0]
-		got, err := s.m[c11Reader(ev.D)].ReadMessage(p)
+		var got []byte
+		var err error
+		if s.viaConn {
+			got, err = s.cn(c11Reader(ev.D)).ReadNextMessage()
+		} else {
+			got, err = s.m[c11Reader(ev.D)].ReadMessage(p)
+		}
 		h := ""
 		if err == nil {
 			h = c11Hash(got)
 			p.tape = append(p.tape[:0], p.cur...)
+			s.held[ev.D] = append(s.held[ev.D], got) // the caller keeps what it was handed
 		}
 		ev.Size = len(got)
 		s.emit(ev, c11Class(err), 0, h)
+
+	case "RHeader": // Conn.ReadNextHeader
+		p := s.pipe[ev.D]
+		p.cur = p.cur[:0]
+		r := c11Reader(ev.D)
+		plen, err := s.cn(r).ReadNextHeader()
+		s.rplen[r] = -1
+		if err == nil {
+			s.rplen[r] = int(plen)
+		}
+		s.emit(ev, c11Class(err), int(plen), "")
+
+	case "RBody": // Conn.ReadNextBody with a buffer of the length ReadNextHeader returned
+		p := s.pipe[ev.D]
+		r := c11Reader(ev.D)
+		if s.rplen[r] <= 0 {
+			panic(c11Diverged{fmt.Sprintf("event %+v: no header read", ev)})
+		}
+		got, err := s.cn(r).ReadNextBody(make([]byte, s.rplen[r]))
+		s.rplen[r] = -1
+		h := ""
+		if err == nil {
+			h = c11Hash(got)
+			p.tape = append(p.tape[:0], p.cur...)
+			s.held[ev.D] = append(s.held[ev.D], got)
+		}
+		ev.Size = len(got)
+		s.emit(ev, c11Class(err), 0, h)
+
+	case "Recheck": // the caller looks again at the slices it was handed
+		for _, b := range s.held[ev.D] {
+			s.hh = append(s.hh, c11Hash(b))
+		}
+		s.emit(ev, "", 0, "")
+
+	case "Release":
+		if len(s.held[ev.D]) == 0 {
+			panic(c11Diverged{fmt.Sprintf("event %+v: nothing held", ev)})
+		}
+		s.held[ev.D] = nil
+		s.emit(ev, "", 0, "")
+
+	case "WStage":
+		// WriteMessage up to the point where it fetches its header buffer from the pool (the length of the
+		// message is staged, nothing is encrypted yet); the goroutine of the write half is parked there
+		p := s.payload(ev.Size, ev.V)
+		ps := &c11Parked{resume: make(chan struct{}), done: make(chan struct{})}
+		parked := make(chan struct{})
+		orig := headerBufferPool
+		var once sync.Once
+		headerBufferPool = &sync.Pool{New: func() interface{} {
+			once.Do(func() {
+				close(parked)
+				<-ps.resume
+			})
+			b := make([]byte, 0, encHeaderSize)
+			return &b
+		}}
+		mach := s.m[ev.M]
+		go func() {
+			ps.err = mach.WriteMessage(p)
+			close(ps.done)
+		}()
+		select {
+		case <-parked:
+			headerBufferPool = orig
+			s.wp[ev.M] = ps
+			s.emit(ev, "", 0, c11Hash(p))
+		case <-ps.done:
+			headerBufferPool = orig
+			s.emit(ev, c11Class(ps.err), 0, c11Hash(p))
+		}
+
+	case "WEnc": // the parked WriteMessage runs to its end
+		ps := s.wp[ev.M]
+		if ps == nil {
+			panic(c11Diverged{fmt.Sprintf("event %+v: no WriteMessage in progress", ev)})
+		}
+		delete(s.wp, ev.M)
+		close(ps.resume)
+		<-ps.done
+		s.emit(ev, c11Class(ps.err), 0, "")
+
+	case "FlushHdr":
+		// Flush up to its second Write on the wire (the header is out, the body is not); a Flush that
+		// ends before (header not completely accepted) is recorded as it ended
+		mach := s.m[ev.M]
+		if len(mach.nextHeaderSend) == 0 {
+			panic(c11Diverged{fmt.Sprintf("event %+v: no header bytes pending", ev)})
+		}
+		ps := &c11Parked{resume: make(chan struct{}), done: make(chan struct{})}
+		parked := make(chan struct{})
+		w := &c11Writer{p: s.pipe[c11Dir(ev.M)], budget: ev.K, second: func() {
+			close(parked)
+			<-ps.resume
+		}}
+		go func() {
+			ps.n, ps.err = mach.Flush(w)
+			close(ps.done)
+		}()
+		select {
+		case <-parked:
+			s.fp[ev.M] = ps
+			s.emit(ev, "", 0, "")
+		case <-ps.done:
+			s.emit(ev, c11Class(ps.err), ps.n, "")
+		}
+
+	case "FlushBody":
+		ps := s.fp[ev.M]
+		if ps == nil {
+			panic(c11Diverged{fmt.Sprintf("event %+v: no Flush in progress", ev)})
+		}
+		delete(s.fp, ev.M)
+		close(ps.resume)
+		<-ps.done
+		s.emit(ev, c11Class(ps.err), ps.n, "")
 
 	case "Corrupt":
 		p := s.pipe[ev.D]
@@ -399,22 +565,24 @@ func (s *c11Session) apply(ev c11Event) {
 			}
 			s.hs = append(s.hs, c11Hash(p[o:e]))
 		}
-		n, err := s.conn[ev.M].Write(p)
+		n, err := s.cn(ev.M).Write(p)
 		s.emit(ev, c11Class(err), n, "")
 
 	case "CRead":
-		c := s.conn[ev.M]
+		c := s.cn(ev.M)
 		p := s.pipe[ev.D]
 		p.cur = p.cur[:0]
-		if c.readBuf.Len() == 0 {
-			s.acc[ev.M] = s.acc[ev.M][:0]
-		}
 		buf := make([]byte, ev.K)
 		n, err := c.Read(buf)
+		if len(p.cur) > 0 {
+			// this call took bytes off the wire: what it hands out starts a new message
+			s.acc[ev.M] = s.acc[ev.M][:0]
+		}
 		s.acc[ev.M] = append(s.acc[ev.M], buf[:n]...)
 		h := ""
-		if err == nil && c.readBuf.Len() == 0 {
-			h = c11Hash(s.acc[ev.M]) // the message is drained
+		if err == nil {
+			// everything handed out since Conn last went to the wire (the trace spec knows when that is a whole message)
+			h = c11Hash(s.acc[ev.M])
 		}
 		if len(p.cur) > 0 && err == nil {
 			p.tape = append(p.tape[:0], p.cur...)
@@ -511,6 +679,11 @@ func (s *c11Session) burst(d string, cnt, lastSize int) {
 		}
 		s.apply(c11Event{A: "Flush", M: m, D: d, K: total})
 		s.apply(c11Event{A: "Read", M: c11Reader(d), D: d})
+		// the reader keeps what it is handed, looks at all of it again every 50 messages and drops it
+		if (i%50 == 0 || i == cnt) && len(s.held[d]) > 0 {
+			s.apply(c11Event{A: "Recheck", M: c11Reader(d), D: d})
+			s.apply(c11Event{A: "Release", M: c11Reader(d), D: d})
+		}
 	}
 }
 
@@ -534,6 +707,7 @@ func TestVerifC11Transport(t *testing.T) {
 		}
 		rng := rand.New(rand.NewSource(verifkit.Seed()*1000003 + int64(fi)))
 		s := c11New(t, rng, out)
+		s.viaConn = fi%2 == 1
 		s.emit(c11Event{A: "Reset", Kind: f}, "", 0, "")
 		frag := false
 		for _, ev := range evs {
@@ -563,6 +737,7 @@ func TestVerifC11Transport(t *testing.T) {
 				break
 			}
 		}
+		s.finish()
 	}
 	t.Logf("C11-DIVERGENCES %d", c11Divergences)
 	t.Logf("C11: %d schedules (%d handshakes through Dial/Listener), %d bursts, %d lines", len(files), dialed, bursts, out.Lines())
@@ -580,11 +755,13 @@ func TestVerifC11Free(t *testing.T) {
 	for si := 0; si < sessions; si++ {
 		rng := rand.New(rand.NewSource(verifkit.Seed()*7919 + int64(si)))
 		s := c11New(t, rng, out)
+		s.viaConn = si%4 >= 2
 		s.emit(c11Event{A: "Reset", Kind: fmt.Sprintf("free-%d", si)}, "", 0, "")
 		s.cleanHandshake()
 		if si%2 == 1 {
 			s.pipe["ab"].frag, s.pipe["ba"].frag = rng, rng
 		}
+		duplex := si%3 != 0 // calls taken section by section, the other halves running in between
 		advLeft := rng.Intn(5) // 0: no adversary in this session
 		afterFail := 0
 		for st := 0; st < steps && afterFail < 6; st++ {
@@ -593,7 +770,18 @@ func TestVerifC11Free(t *testing.T) {
 			p := s.pipe[d]
 			mach := s.m[m]
 			pending := len(mach.nextHeaderSend) + len(mach.nextBodySend)
-			switch r := rng.Intn(100); {
+			rd := c11Reader(d)
+			r := rng.Intn(100)
+			if r < 60 && (s.wp[m] != nil || s.fp[m] != nil) {
+				// the write half of m is in the middle of a call: it can only go on with it
+				if s.wp[m] != nil {
+					s.apply(c11Event{A: "WEnc", M: m, D: d})
+				} else {
+					s.apply(c11Event{A: "FlushBody", M: m, D: d})
+				}
+				continue
+			}
+			switch {
 			case r < 30:
 				size := rng.Intn(80)
 				switch q := rng.Intn(40); {
@@ -610,21 +798,62 @@ func TestVerifC11Free(t *testing.T) {
 				if size == 2 {
 					v = []int{0, 2, 2, 18, 300, 65535}[rng.Intn(6)]
 				}
-				s.apply(c11Event{A: "Write", M: m, D: d, Size: size, V: v})
+				a := "Write"
+				if duplex && rng.Intn(3) == 0 {
+					a = "WStage"
+				}
+				s.apply(c11Event{A: a, M: m, D: d, Size: size, V: v})
+				if od := c11Other(d); a == "WStage" && s.wp[m] != nil && len(s.pipe[od].buf) > 0 && rng.Intn(2) == 0 {
+					// the read half of the same Machine gets to run while its write half is parked
+					ra := "Read"
+					if s.rplen[m] > 0 {
+						ra = "RBody"
+					} else if rng.Intn(3) == 0 {
+						ra = "RHeader"
+					}
+					s.apply(c11Event{A: ra, M: m, D: od})
+					if s.last != "" {
+						afterFail++
+					}
+				}
 			case r < 60:
 				k := pending
 				if rng.Intn(2) == 0 {
 					k = rng.Intn(pending + 2)
 				}
-				s.apply(c11Event{A: "Flush", M: m, D: d, K: k})
+				a := "Flush"
+				if duplex && len(mach.nextHeaderSend) > 0 && rng.Intn(3) == 0 {
+					a = "FlushHdr"
+				}
+				s.apply(c11Event{A: a, M: m, D: d, K: k})
 			case r < 80:
+				if s.rplen[rd] > 0 {
+					// the read half of rd has read a header: it can only go on with the body
+					s.apply(c11Event{A: "RBody", M: rd, D: d})
+					if s.last != "" {
+						afterFail++
+					}
+					continue
+				}
 				// mostly read complete messages; now and then an incomplete stream
 				if (len(p.buf) == 0 || pending > 0) && rng.Intn(12) != 0 {
 					continue
 				}
-				s.apply(c11Event{A: "Read", M: c11Reader(d), D: d})
+				a := "Read"
+				if duplex && rng.Intn(3) == 0 {
+					a = "RHeader"
+				}
+				s.apply(c11Event{A: a, M: rd, D: d})
 				if s.last != "" {
 					afterFail++
+				}
+			case r < 87:
+				if len(s.held[d]) > 0 {
+					s.apply(c11Event{A: "Recheck", M: rd, D: d})
+				}
+			case r < 89:
+				if len(s.held[d]) > 0 {
+					s.apply(c11Event{A: "Release", M: rd, D: d})
 				}
 			default:
 				if advLeft == 0 || len(p.buf) == 0 {
@@ -676,6 +905,12 @@ func TestVerifC11Free(t *testing.T) {
 				}
 			}
 		}
+		for _, d := range []string{"ab", "ba"} {
+			if len(s.held[d]) > 0 {
+				s.apply(c11Event{A: "Recheck", M: c11Reader(d), D: d})
+			}
+		}
+		s.finish()
 	}
 	t.Logf("C11 free: %d sessions, %d lines", sessions, out.Lines())
 }
@@ -710,8 +945,7 @@ func TestVerifC11Conn(t *testing.T) {
 		for _, d := range []string{"ab", "ba"} {
 			s.pipe[d].frag = rng
 		}
-		s.conn["A"] = &Conn{conn: &c11Net{rd: s.pipe["ba"], wr: s.pipe["ab"]}, noise: s.m["A"]}
-		s.conn["B"] = &Conn{conn: &c11Net{rd: s.pipe["ab"], wr: s.pipe["ba"]}, noise: s.m["B"]}
+		small := si%2 == 1 // messages of a few hundred bytes, each handed out in several pieces
 		adv := rng.Intn(3) == 0
 		fails := 0
 		for st := 0; st < steps && fails < 3; st++ {
@@ -722,7 +956,7 @@ func TestVerifC11Conn(t *testing.T) {
 			switch r := rng.Intn(100); {
 			case r < 35:
 				size := sizes[rng.Intn(len(sizes))]
-				if rng.Intn(3) == 0 {
+				if small || rng.Intn(3) == 0 {
 					size = rng.Intn(300)
 				}
 				v := -1
@@ -731,10 +965,13 @@ func TestVerifC11Conn(t *testing.T) {
 				}
 				s.apply(c11Event{A: "CWrite", M: m, D: d, Size: size, V: v})
 			case r < 95:
-				if len(p.buf) == 0 && s.conn[rd].readBuf.Len() == 0 && rng.Intn(20) != 0 {
+				if len(p.buf) == 0 && rng.Intn(3) != 0 {
 					continue
 				}
 				want := []int{1, 2, 7, 100, 4096, 65535, 70000}[rng.Intn(7)]
+				if small {
+					want = []int{1, 2, 5, 7, 16, 100, 0}[rng.Intn(7)]
+				}
 				s.apply(c11Event{A: "CRead", M: rd, D: d, K: want})
 				if s.last != "" {
 					fails++
